@@ -180,7 +180,7 @@ def cmp_c01(case, i, m):
     if i.get("outcome") != "ok":
         return ("impl-" + str(i.get("outcome")), f"declarative profile: real code gave {i.get('outcome')}: {str(i.get('err'))[:300]}")
     real = i["reported"]
-    classical = case["stream"] in ("tt", "graphcount")
+    classical = case["stream"] in ("tt", "graphcount", "scopes")
     if classical and m["reported"] != m["implReported"]:
         return ("~model-self", "DNF model and classical meaning disagree on a classical case (compile_correct contradicted?)")
     if classical and real != m["reported"]:
@@ -202,7 +202,7 @@ def check_C01(ctx):
         return conclude(ctx, [b])
     broken += prove(ctx, "Acv.Props.C01Atoms", C01_THEOREMS + C01_ATOM_THEOREMS)
     q = ctx.quick()
-    plan = [("tt", 260 if q else 6000), ("graphcount", 120 if q else 3000), ("atoms", 120 if q else 3000), ("graph", 100 if q else 3000)]
+    plan = [("tt", 260 if q else 6000), ("graphcount", 120 if q else 3000), ("atoms", 120 if q else 3000), ("graph", 100 if q else 3000), ("scopes", 120 if q else 3000)]
     try:
         for k, (stream, n) in enumerate(plan):
             before = len(ctx.violations)
@@ -211,7 +211,7 @@ def check_C01(ctx):
     except Broken as b:
         broken.append(b)
     ctx.coverage["rule"] = ("tt: random formulas (and/or/not/if/then/else, depth<=6, width<=4) over k<=5 classical atoms, graph = one target node per truth assignment (whole truth table per validation); "
-                            "graphcount: random graphs, cardinality atoms over random paths, nested/atLeast/atMost/exactly; atoms: every atom kind alone and negated; graph: all atom kinds mixed. "
+                            "graphcount: random graphs, cardinality atoms over random paths, nested/atLeast/atMost/exactly; atoms: every atom kind alone and negated; graph: all atom kinds mixed; scopes: 2-3 nested/quantified constraints over different paths, each inside one of seven connective contexts, combined by or/and/not-and/not-or/if-then(-else) in shuffled operand order. "
                             "non-trivial = at least one node reported")
     ctx.assumptions += ["per-atom Rego snippets are modelled by Atom.fails (tied by the atoms stream)",
                         "per-value atoms (in, pattern, lengths, numeric, datatype, property comparisons) are classical only on single-valued properties; on other graphs the check compares with the literal translator model (stream graph)"]
@@ -935,9 +935,17 @@ def check_C06(ctx):
         with concurrent.futures.ThreadPoolExecutor(max_workers=16) as ex:
             outs = list(ex.map(one, range(runs)))
         cases = [json.loads(l) for l in lines + fixtures]
+        # and every case ALONE in a process of its own: the reference that no other call can have influenced
+        def solo(line):
+            p = subprocess.run([ACVH, "oneshot"], input=line + "\n", capture_output=True, text=True, timeout=3600)
+            return [json.loads(l) for l in p.stdout.split("\n") if l.strip()]
+        with concurrent.futures.ThreadPoolExecutor(max_workers=16) as ex:
+            solos = list(ex.map(solo, lines + fixtures))
         bad = 0
-        for case in cases:
+        for ci, case in enumerate(cases):
             gens, vals = {}, {}
+            for rec in solos[ci]:
+                vals.setdefault((rec.get("validate"), rec.get("panic")), []).append("alone")
             for r, o in enumerate(outs):
                 recs = [x for x in o if x.get("id") == case["id"]]
                 if not recs:
@@ -949,7 +957,7 @@ def check_C06(ctx):
             if len(vals) > 1 or len(gens) > 1:
                 bad += 1
                 what = "report" if len(vals) > 1 else "generated Rego"
-                hist = "in fresh processes running the same calls in the same order" if len(gens) > 1 else "depending on which other profiles the process handled before (permuted histories)"
+                hist = "in fresh processes running the same calls in the same order" if len(gens) > 1 else "depending on what else the process handled before (alone / fixed history / permuted histories)"
                 ctx.violation(f"C06:nondeterministic-{what.split()[0]}", f"{max(len(vals), len(gens))} different {what}s for the same profile/data/configuration/clock {hist} (case {case['id']})",
                               {"case": case, "distinct_reports": [{"hash": str(k2), "runs": v} for k2, v in vals.items()], "distinct_generated": [{"hash": str(k2), "runs": v} for k2, v in gens.items()]})
         ctx.coverage.setdefault("streams", {})["fresh-processes"] = {"cases": len(cases), "processes": runs, "generated": len(lines), "fixtures": len(fixtures)}
@@ -982,7 +990,7 @@ def check_C06(ctx):
     except Broken as b:
         broken.append(b)
     ctx.coverage["rule"] = ("profiles with 2..8 nested/atLeast/atMost constraints under one propertyConstraints map (several constraint keys per property, several prefixes), and repository fixtures; "
-                            "each generated and validated (fixed clock) in N fresh processes; all hashes must coincide. Concurrency: 6 (quick) / 60 (thorough) rounds of 2..64 goroutines x 8 calls mixing all entry points over 6 profiles, each result byte-compared with the serial one (C10 repeats this under the race detector).")
+                            "the same profile and data under six report configurations that share some fields; each generated and validated (fixed clock) alone in a process of its own and in N fresh processes (fixed and permuted histories); all hashes must coincide. Concurrency: 6 (quick) / 60 (thorough) rounds of 2..64 goroutines x 8 calls mixing all entry points over 6 profiles, each result byte-compared with the serial one (C10 repeats this under the race detector).")
     ctx.assumptions += ["determinism of OPA (set ordering), json-gold, yaml.v3 and encoding/json (sorted map keys) is a dependency property: observed only",
                         "every range over a Go map in the library is one of the four inventoried sites (theorem sites_expected over the regenerated inventory)"]
     return conclude(ctx, broken, trusted=TRUST_COMMON + ["go/packages-based inventory extractor"])
@@ -1004,7 +1012,8 @@ def cmp_c08(case, i, m):
     if case.get("flaw"):
         # a second defect in the same module: whichever the compiler reports, the profile must not be accepted
         if i.get("outcome") == "accepted":
-            return ("forbidden-accepted:" + case["builtin"], f"{where} in a module that also has the flaw `{case['flaw']}`: the profile was ACCEPTED")
+            how = "bound to another function by a `with` modifier (never called by name)" if case["flaw"] == "with-modifier" else f"in a module that also has the flaw `{case['flaw']}`"
+            return ("forbidden-accepted:" + case["builtin"], f"{where} {how}: the profile was ACCEPTED")
         return None
     if m["forbidden"] and not i.get("unsafeRejected"):
         return ("forbidden-accepted:" + case["builtin"], f"{where}: the profile was {'ACCEPTED' if i.get('outcome') == 'accepted' else 'rejected for another reason: ' + str(i.get('err'))[:120]} - a forbidden built-in must be rejected by the deny-list")
@@ -1036,7 +1045,7 @@ def check_C08(ctx):
         broken.append(b)
     ctx.coverage["rule"] = ("every built-in registered in the linked engine (thorough: all; quick: the 5 forbidden ones everywhere + a 6% sample of the rest) x 12 embedding positions (rego, regoModule, code/message form, not, and, or, if, "
                             "path-level rego, nested, atLeast, helper function in rego_extensions called from a rule, helper never called) x 4 call syntaxes (assignment, inside a comprehension, as argument of another call, bare statement); "
-                            "for the forbidden ones also modules with a second defect (keywords used as names, syntax/type errors, unknown functions, unsafe variables, unterminated strings); type-correct sample arguments from the built-in's declaration; only CompileProfile is called, so nothing is evaluated")
+                            "for the forbidden ones also `with <function> as <built-in>` bindings (to a built-in and to a rego_extensions helper of the same arity) and modules with a second defect (keywords used as names, syntax/type errors, unknown functions, unsafe variables, unterminated strings); type-correct sample arguments from the built-in's declaration; only CompileProfile is called, so nothing is evaluated")
     ctx.assumptions += ["the engine's capability check (rego.UnsafeBuiltins) is a dependency: modelled at term level (C08Term), tied by the matrix", "js/validator.go (WASM entry, build-constrained) calls the same internal pipeline and is not loaded by the inventory"]
     return conclude(ctx, broken, trusted=TRUST_COMMON + ["go/packages-based inventory of engine API calls"])
 
